@@ -371,6 +371,7 @@ class Facts:
         self.fn_renamed = {}
         if which == "lib" and os.environ.get("PFA_NO_VARNAMES") != "1":
             self._canonical_function_names(p)
+            self._canonical_const_names()
         self.which = which
         self.bodies = {k: Body(k, v) for k, v in self.j["bodies"].items()}
         self.const_bodies = {k: Body(k, v) for k, v in self.j.get("const_bodies", {}).items()}
@@ -427,6 +428,38 @@ class Facts:
         for c, g in pairs.items():
             raw = re.sub(re.escape(c) + r"(?![A-Za-z0-9_])", g.replace("\\", "\\\\"), raw)
             cs, gs = c.replace("preflate_rs::", "", 1), g.replace("preflate_rs::", "", 1)
+            self.fn_renamed[c] = g
+        self.j = json.loads(raw)
+
+    # ---- nor the names and homes of constants -------------------------------------------------------------
+    def _canonical_const_names(self):
+        """Some rules read a named constant by its path (the RFC tables, the zip signature ...).  A constant that was renamed
+        or moved — its reference path is gone, and exactly one new constant has the same type and the same value, with either
+        the same parent path or the same name — gets its reference path back (textual substitution over the facts)."""
+        rp = os.path.join(os.path.dirname(os.path.dirname(os.path.abspath(__file__))), "reference", "constnames.json")
+        if not os.path.exists(rp):
+            return
+        ref = json.load(open(rp))
+        cur = self.j.get("consts", {})
+        gone = [k for k in ref if k not in cur]
+        new = [k for k in cur if k not in ref]
+        if not gone or not new:
+            return
+
+        def same(a, r):
+            return cur[a].get("ty") == r["ty"] and json.dumps(cur[a].get("v"), sort_keys=True) == r["v"]
+        pairs = {}
+        for g in gone:
+            parent, base = g.rsplit("::", 1)
+            cands = [n for n in new if same(n, ref[g]) and (n.rsplit("::", 1)[0] == parent or n.rsplit("::", 1)[-1] == base)]
+            back = [g2 for g2 in gone if ref[g2] == ref[g] and (g2.rsplit("::", 1)[0] == parent or g2.rsplit("::", 1)[-1] == base)]
+            if len(cands) == 1 and len(back) == 1 and cands[0] not in pairs:
+                pairs[cands[0]] = g
+        if not pairs:
+            return
+        raw = json.dumps(self.j)
+        for c, g in pairs.items():
+            raw = re.sub(re.escape(c) + r"(?![A-Za-z0-9_])", g.replace("\\", "\\\\"), raw)
             self.fn_renamed[c] = g
         self.j = json.loads(raw)
 
